@@ -25,6 +25,12 @@ impl Tier {
     }
 }
 
+/// Budget divisor for self-tests (HESIM_RUNS_DIV), default 1.
+pub fn scale(n: usize) -> usize {
+    let d = std::env::var("HESIM_RUNS_DIV").ok().and_then(|s| s.parse::<usize>().ok()).unwrap_or(1).max(1);
+    (n / d).max(1)
+}
+
 pub fn workers() -> usize {
     std::env::var("HESIM_WORKERS").ok().and_then(|s| s.parse().ok()).unwrap_or(16).max(1)
 }
@@ -82,6 +88,8 @@ pub struct Batch {
     pub samples: Vec<Value>,
     pub degenerate: usize,
     pub wall_s: f64,
+    /// determinism re-check: (runs executed a second time, runs whose event-log hash differed)
+    pub recheck: (usize, usize),
 }
 
 /// Execute `n` runs on the worker pool. `f(run_index, run_seed)` must be a pure function
@@ -119,6 +127,7 @@ where
         samples: Vec::new(),
         degenerate: 0,
         wall_s: 0.0,
+        recheck: (0, 0),
     };
     for (i, r) in results.into_iter().enumerate() {
         let r = r.expect("run result missing");
@@ -142,6 +151,26 @@ where
             b.degenerate += 1;
         }
     }
+    // determinism re-check: execute about 2% of the runs a second time and compare event-log hashes
+    let again: Vec<usize> = (0..n).filter(|i| i % 50 == 7 % n.max(1) || n < 50 && *i == 0).collect();
+    let mism = AtomicUsize::new(0);
+    let next2 = AtomicUsize::new(0);
+    std::thread::scope(|s| {
+        for _ in 0..w {
+            s.spawn(|| loop {
+                let k = next2.fetch_add(1, Ordering::Relaxed);
+                if k >= again.len() {
+                    break;
+                }
+                let i = again[k];
+                let out = f(i, prng::mix(seed, pid, i as u64));
+                if out.log_hash != b.log_hashes[i] {
+                    mism.fetch_add(1, Ordering::Relaxed);
+                }
+            });
+        }
+    });
+    b.recheck = (again.len(), mism.load(Ordering::Relaxed));
     b.wall_s = t0.elapsed().as_secs_f64();
     b
 }
@@ -164,6 +193,7 @@ impl Batch {
         self.samples.extend(other.samples);
         self.degenerate += other.degenerate;
         self.wall_s += other.wall_s;
+        self.recheck = (self.recheck.0 + other.recheck.0, self.recheck.1 + other.recheck.1);
     }
 }
 
@@ -326,6 +356,9 @@ pub fn finish(
     cov.insert("unreached_probes".into(), json!(zero));
     cov.insert("components".into(), rep.components.clone());
     cov.insert("workers".into(), json!(workers()));
+    let log_digest = crate::util::h64_u64s(&batch.log_hashes);
+    cov.insert("log_digest".into(), json!(format!("{:016x}", log_digest)));
+    cov.insert("determinism_recheck".into(), json!({"runs_executed_twice": batch.recheck.0, "log_hash_mismatches": batch.recheck.1}));
     cov.insert("known_findings_hit".into(), Value::Array(known_hit));
     cov.insert("violations_reported".into(), Value::Array(reported));
     for (k, v) in rep.extra {
@@ -345,6 +378,11 @@ pub fn finish(
     let _ = std::fs::create_dir_all(&dir);
     let path = dir.join(format!("{}.json", rep.prop));
     std::fs::write(&path, serde_json::to_string_pretty(&ev).unwrap()).expect("cannot write evidence");
+    println!("log_digest={:016x} recheck={}/{} mismatches", log_digest, batch.recheck.1, batch.recheck.0);
+    if batch.recheck.1 > 0 {
+        eprintln!("harness error: {} of {} re-executed runs produced a different event log (simulator is not deterministic)", batch.recheck.1, batch.recheck.0);
+        return 2;
+    }
     println!(
         "{} tier={} seed={} runs={} distinct_nontrivial={} violations={} wall={:.1}s evidence={}",
         rep.prop,
